@@ -225,6 +225,8 @@ type Schema struct {
 	// Roots is the explicit schema block (operation -> type name); nil = implicit.
 	Roots    map[string]string `json:"roots,omitempty"`
 	RootDirs []DirUse          `json:"root_dirs,omitempty"`
+	// ExtRoots: operation roots added to an implicit schema (Roots == nil) with 'extend schema {...}'
+	ExtRoots map[string]string `json:"ext_roots,omitempty"`
 }
 
 func (s *Schema) Type(name string) *TypeDef {
@@ -249,6 +251,9 @@ func (s *Schema) Dir(name string) *DirDef {
 func (s *Schema) RootType(op string) string {
 	if s.Roots != nil {
 		return s.Roots[op]
+	}
+	if s.ExtRoots[op] != "" {
+		return s.ExtRoots[op]
 	}
 	n := strings.ToUpper(op[:1]) + op[1:]
 	if s.Type(n) != nil {
@@ -549,5 +554,22 @@ func (s *Schema) SDL(o SDLOpts) string {
 	for _, t := range s.Types {
 		b.WriteString(TypeSDL(t, "", o))
 	}
+	b.WriteString(s.ExtRootsSDL())
+	return b.String()
+}
+
+// ExtRootsSDL renders the extension of the implicit schema ("" when there is none).
+func (s *Schema) ExtRootsSDL() string {
+	if len(s.ExtRoots) == 0 {
+		return ""
+	}
+	var b strings.Builder
+	b.WriteString("extend schema {\n")
+	for _, op := range []string{"query", "mutation", "subscription"} {
+		if n := s.ExtRoots[op]; n != "" {
+			b.WriteString("  " + op + ": " + n + "\n")
+		}
+	}
+	b.WriteString("}\n")
 	return b.String()
 }
